@@ -465,7 +465,7 @@ def run(ctx):
     ctx.trusted_base += ['correspondence harness harness/props/c16.py + harness/store_fixtures.py (exact comparison)',
                          'numpy fancy indexing / np.append promotion / astype as modelled in Model/Store.lean (compared on every run)',
                          'values are small integers: value conversion between the five dtypes is the identity except towards bool']
-    ctx.assumptions += ['arrays handed to append_field / __setitem__ / the constructor are not referenced elsewhere (fresh)',
+    ctx.assumptions += ['the source of a set_selection does not share memory with its target (numpy read-after-write order is not modelled)',
                         'no NaN in sort keys; conversions dicts have distinct old names (a Python dict)']
     # ---- bounded-exhaustive histories
     depth = ctx.n(4, 5)
@@ -523,10 +523,12 @@ MANIFEST = dict(
           'three caches _field_name_list/_len/_indices maintained as coded): for every operation sequence the heap layer refines a '
           'plain table (c16_refines), the invariant (equal column lengths, field list = dict keys, indices absent or range(len), no '
           'location shared between two slots) is preserved (c16_inv_step), selections and copies are fresh (c16_selection_fresh, '
-          'c16_copy_fresh). The executable model is compared after every step with the real container (public accessors + '
+          'c16_copy_fresh). Arrays handed in by the caller may already be columns elsewhere: in any state every operation except '
+          'set_selection leaves all existing arrays untouched (c16_rebind_ops_frame) and, without write-through, the plain tables are still '
+          'refined (c16_refines_shared). The executable model is compared after every step with the real container (public accessors + '
           'np.shares_memory) on bounded-exhaustive and random operation sequences; a numpy-structured-array reference table is the '
           'failing-input oracle.'),
-    note=('Values are small integers (dtype conversion modelled only as far as which column gets which dtype); arrays handed in by the '
-          'caller are assumed fresh; numpy primitives (fancy indexing, np.append promotion, argsort) are modelled and compared, not verified.'),
+    note=('Values are small integers (dtype conversion modelled only as far as which column gets which dtype); set_selection whose source shares '
+          'memory with its target is outside the model; numpy primitives (fancy indexing, np.append promotion, argsort) are modelled and compared, not verified.'),
     design='DESIGN.md section 4 C16',
     technique='Lean 4 refinement proof (heap layer vs. plain table, induction over operation lists) + exact model/implementation correspondence')
